@@ -354,10 +354,18 @@ func (b *Encoder) Read(p []byte) (n int, err error) {
 		}
 		break
 	}
+	if nn < n && err == io.EOF {
+		// The file is shorter than when it was binned.  The header has promised
+		// end-beg bytes for this part and the receiver finds the parts behind
+		// it by counting: fill up - the part fails its validation and is sent
+		// again - rather than let the next part's bytes take the place
+		clear(p[nn:n])
+		err = nil
+	}
 	bytesLeft -= int64(n)
 	b.partProgress += int64(n)
 	// logging.Debug("BIN Bytes Read", n, b.binPart.File.GetName(), bytesLeft)
-	if err == io.EOF || n == 0 || bytesLeft == 0 {
+	if bytesLeft == 0 {
 		err = b.startNextPart()
 		b.eop = true
 		if err == nil && b.eob {
